@@ -7,4 +7,6 @@ mkdir -p "$ROOT/target" "$ROOT/evidence" "$ROOT/replays"
 cd "$ROOT/harness" && cargo build --release --offline
 # CLI under test (C12); ./check C12 rebuilds it from the working tree on every run
 (cd /repo && cargo build --release --offline --bin xml_schema_generator --target-dir "$ROOT/target/cli")
+# rlibs the generated programs of C02/C13 are compiled against
+(cd "$ROOT/progdeps" && cargo build --offline)
 echo "setup ok"
